@@ -661,7 +661,7 @@ class _Bech32DecodeStr(_WithPolymod):
                                              spec in (Enc.BECH32, Enc.BECH32M))
 
 
-for _n in list(range(0, 13)) + [14, 20, 42, 62]:
+for _n in list(range(0, 13)) + [14, 20]:
     CONTRACTS.append(type(f"Bech32DecodeStr_{_n}", (_Bech32DecodeStr,), dict(n=_n, tier="quick" if _n <= 11 else "thorough"))())
 
 
